@@ -4,6 +4,7 @@
 -/
 import Lcapy.Model.PolySynth
 import Lcapy.Proofs.Poly
+import Lcapy.Proofs.PolyCF
 namespace Lcapy.Synth
 open Lcapy.Poly
 variable {K : Type} [Field K] [DecidableEq K]
@@ -306,5 +307,215 @@ theorem cauerII_value (x : K) (cs : List (K × Nat)) (first even : Bool) (net : 
           have hy := parallel_forms_value _ x s (Or.inr (Or.inr (Or.inl hs)))
           rw [monoCollInv_value _ _ _ _ (other_false_of_parallelGC hs)] at hy
           rw [Z_serO, Z_of_Y s x, hy]; simp; ring
+
+
+/-! ### inverse continued fraction: `continued_fraction_inverse_coeffs` is the forward expansion in `1/var` -/
+open Lcapy.Ratfun in
+/-- the swapping expansion is defined at `y`: no denominator met on the way vanishes there -/
+def cfDefinedSwap : Nat → List K → List K → K → Bool
+  | 0, _, _, _ => true
+  | fuel + 1, N, D, y =>
+    decide (Poly.eval D y ≠ 0) &&
+    match cfStep N D with
+    | none => decide (Poly.eval N y ≠ 0) && cfDefinedSwap fuel D N y
+    | some (_, _, N2) => if isZero N2 then true else cfDefinedSwap fuel D N2 y
+
+open Lcapy.Ratfun in
+theorem cfRunSwap_ne_nil (fuel : Nat) (N D : List K) (cs : List (K × Nat)) (h : cfRunSwap fuel N D = .ok cs) :
+    cs ≠ [] := by
+  cases fuel with
+  | zero => simp [cfRunSwap] at h
+  | succ fuel =>
+    simp only [cfRunSwap] at h
+    cases hs : cfStep N D with
+    | none =>
+      simp only [hs] at h
+      cases hr : cfRunSwap fuel D N with
+      | ok rest => simp only [hr, CFRes.ok.injEq] at h; subst h; simp
+      | negPower => simp [hr] at h
+      | fuelOut => simp [hr] at h
+    | some v =>
+      obtain ⟨q, k, N2⟩ := v
+      simp only [hs] at h
+      by_cases hz : isZero N2 = true
+      · simp only [hz, if_true, CFRes.ok.injEq] at h; subst h; simp
+      · simp only [hz, if_false, Bool.false_eq_true] at h
+        cases hr : cfRunSwap fuel D N2 with
+        | ok rest => simp only [hr, CFRes.ok.injEq] at h; subst h; simp
+        | negPower => simp [hr] at h
+        | fuelOut => simp [hr] at h
+
+open Lcapy.Ratfun in
+/-- value of the swapping expansion (in its own variable `y`) -/
+theorem cfRunSwap_value (fuel : Nat) (N D : List K) (cs : List (K × Nat)) (y : K)
+    (h : cfRunSwap fuel N D = .ok cs) (hdef : cfDefinedSwap fuel N D y = true) :
+    cfVal false y cs = Poly.eval N y / Poly.eval D y := by
+  induction fuel generalizing N D cs with
+  | zero => simp [cfRunSwap] at h
+  | succ fuel ih =>
+    simp only [cfRunSwap] at h
+    simp only [cfDefinedSwap, Bool.and_eq_true, decide_eq_true_eq] at hdef
+    obtain ⟨hDy, hrest⟩ := hdef
+    have hD := lc_ne_zero_of_eval hDy
+    cases hs : cfStep N D with
+    | none =>
+      simp only [hs] at h hrest
+      simp only [Bool.and_eq_true, decide_eq_true_eq] at hrest
+      cases hr : cfRunSwap fuel D N with
+      | ok rest =>
+        simp only [hr, CFRes.ok.injEq] at h
+        subst h
+        have hv := ih D N rest hr hrest.2
+        have hne := cfRunSwap_ne_nil fuel D N rest hr
+        cases rest with
+        | nil => exact absurd rfl hne
+        | cons r rs =>
+          simp only [cfVal, hv, monoVal, npow]
+          have := hrest.1
+          field_simp
+          simp
+      | negPower => simp [hr] at h
+      | fuelOut => simp [hr] at h
+    | some v =>
+      obtain ⟨q, k, N2⟩ := v
+      simp only [hs] at h hrest
+      have hev := cfStep_eval hs hD y
+      by_cases hz : isZero N2 = true
+      · simp only [hz, if_true, CFRes.ok.injEq] at h
+        subst h
+        simp only [cfVal, monoVal, npow_eq, Bool.false_eq_true, if_false]
+        rw [hev, eval_of_isZero hz]; field_simp; ring
+      · simp only [hz, if_false, Bool.false_eq_true] at h hrest
+        cases hr : cfRunSwap fuel D N2 with
+        | ok rest =>
+          simp only [hr, CFRes.ok.injEq] at h
+          subst h
+          have hne := cfRunSwap_ne_nil fuel D N2 rest hr
+          have hv := ih D N2 rest hr hrest
+          have hN2y : Poly.eval N2 y ≠ 0 := by
+            cases fuel with
+            | zero => simp [cfRunSwap] at hr
+            | succ f =>
+              simp only [cfDefinedSwap, Bool.and_eq_true, decide_eq_true_eq] at hrest
+              exact hrest.1
+          cases rest with
+          | nil => exact absurd rfl hne
+          | cons r rs =>
+            simp only [cfVal, hv, monoVal, npow_eq, Bool.false_eq_true, if_false]
+            rw [hev]; field_simp
+        | negPower => simp [hr] at h
+        | fuelOut => simp [hr] at h
+
+
+open Lcapy.Ratfun in
+theorem cfStep_none_iff (N D : List K) : cfStep N D = none ↔ (trim N).length < (trim D).length := by
+  unfold cfStep
+  simp only
+  split <;> simp_all
+
+open Lcapy.Ratfun in
+/-- **termination of the inverse expansion**: a swap is always followed by a genuine step, which strictly
+    shortens the dividend; `2(|N| + |D|) + 1` fuel is never exhausted. -/
+theorem cfRunSwap_fuel (fuel : Nat) (N D : List K) (hN : lc N ≠ 0) (hD : lc D ≠ 0)
+    (hf : 2 * ((trim N).length + (trim D).length) + (if (trim N).length < (trim D).length then 1 else 0) ≤ fuel) :
+    cfRunSwap fuel N D ≠ .fuelOut := by
+  induction fuel generalizing N D with
+  | zero =>
+    exfalso
+    have : trim D = [] := List.length_eq_zero_iff.1 (by omega)
+    exact hD ((lc_eq_zero_iff D).2 this)
+  | succ fuel ih =>
+    simp only [cfRunSwap]
+    cases hs : cfStep N D with
+    | none =>
+      have hlt := (cfStep_none_iff N D).1 hs
+      simp only [hlt, if_true] at hf
+      have hnot : ¬ (trim D).length < (trim N).length := by omega
+      have := ih D N hD hN (by simp only [hnot, if_false]; omega)
+      simp only
+      cases hr : cfRunSwap fuel D N with
+      | ok rest => simp
+      | negPower => simp
+      | fuelOut => exact absurd hr this
+    | some v =>
+      obtain ⟨q, k, N2⟩ := v
+      simp only
+      by_cases hz : isZero N2 = true
+      · simp [hz]
+      · simp only [hz, if_false, Bool.false_eq_true]
+        have hl := cfStep_length hs hD
+        have hN2 : lc N2 ≠ 0 := by
+          intro h0
+          apply hz
+          simp [isZero, (lc_eq_zero_iff N2).1 h0]
+        have hnot : ¬ (trim N).length < (trim D).length := by omega
+        simp only [hnot, if_false] at hf
+        have := ih D N2 hD hN2 (by split <;> omega)
+        cases hr : cfRunSwap fuel D N2 with
+        | ok rest => simp
+        | negPower => simp
+        | fuelOut => exact absurd hr this
+
+/-- reversing the coefficient list evaluates the polynomial at the reciprocal point -/
+theorem eval_reverse (P : List K) (x y : K) (hxy : x * y = 1) (hP : P ≠ []) :
+    Poly.eval P.reverse y * x ^ (P.length - 1) = Poly.eval P x := by
+  induction P with
+  | nil => exact absurd rfl hP
+  | cons a P ih =>
+    cases P with
+    | nil => simp
+    | cons b Q =>
+      have := ih (by simp)
+      simp only [List.reverse_cons, List.length_cons, Nat.add_sub_cancel] at this ⊢
+      rw [eval_append]
+      simp only [List.length_append, List.length_reverse, List.length_cons, List.length_nil, eval_cons,
+        eval_nil, mul_zero, add_zero] at this ⊢
+      have hp : y ^ (Q.length + 1) * x ^ (Q.length + 1) = 1 := by
+        rw [← mul_pow, mul_comm y x, hxy, one_pow]
+      linear_combination x * this + a * hp
+
+open Lcapy.Ratfun in
+theorem eval_revPad (P : List K) (m : Nat) (x y : K) (hxy : x * y = 1) (hm : 0 < m) (hl : P.length ≤ m) :
+    Poly.eval (revPad P m) y * x ^ (m - 1) = Poly.eval P x := by
+  have hlen : (P ++ List.replicate (m - P.length) (0 : K)).length = m := by
+    simp only [List.length_append, List.length_replicate]; omega
+  have hne : P ++ List.replicate (m - P.length) (0 : K) ≠ [] := by
+    intro h0; rw [h0] at hlen; simp at hlen; omega
+  have := eval_reverse _ x y hxy hne
+  rw [hlen, eval_append, eval_replicate_zero] at this
+  simpa [revPad] using this
+
+theorem cfVal_inv (x y : K) (hxy : x * y = 1) (cs : List (K × Nat)) : cfVal true x cs = cfVal false y cs := by
+  have hx : x ≠ 0 := left_ne_zero_of_mul_eq_one hxy
+  have hy : y = x⁻¹ := by field_simp; rw [mul_comm]; exact hxy
+  have hm : ∀ q k, monoVal true q k x = monoVal false q k y := by
+    intro q k
+    simp only [monoVal, npow_eq, if_true, Bool.false_eq_true, if_false, hy, inv_pow]
+    field_simp
+  induction cs with
+  | nil => simp [cfVal]
+  | cons c rest ih =>
+    obtain ⟨q, k⟩ := c
+    cases rest with
+    | nil => simp only [cfVal, hm]
+    | cons r rs => simp only [cfVal, hm, ih]
+
+open Lcapy.Ratfun in
+/-- **value of the inverse continued fraction**: the coefficients `q·x^(−k)` of `cfiCoeffs N D` give back `N/D` -/
+theorem cfi_value' (N D : List K) (cs : List (K × Nat)) (x : K) (hx : x ≠ 0)
+    (h : cfiCoeffs N D = .ok cs) (hD : D ≠ [])
+    (hdef : cfDefinedSwap (2 * (max N.length D.length + max N.length D.length) + 3)
+      (revPad N (max N.length D.length)) (revPad D (max N.length D.length)) (1 / x) = true) :
+    cfVal true x cs = Poly.eval N x / Poly.eval D x := by
+  have hxy : x * (1 / x) = 1 := by field_simp
+  have hm : 0 < max N.length D.length := by
+    have : 0 < D.length := List.length_pos_iff.mpr hD
+    omega
+  rw [cfVal_inv x (1 / x) hxy, cfRunSwap_value _ _ _ cs (1 / x) h hdef]
+  have e1 := eval_revPad N _ x (1 / x) hxy hm (le_max_left _ _)
+  have e2 := eval_revPad D _ x (1 / x) hxy hm (le_max_right _ _)
+  rw [← e1, ← e2]
+  have hp : x ^ (max N.length D.length - 1) ≠ 0 := pow_ne_zero _ hx
+  rw [mul_div_mul_right _ _ hp]
 
 end Lcapy.Synth
